@@ -353,3 +353,15 @@ _run0 = run
 def run(ctx, rep, tier):
     _run0(ctx, rep, tier)
     _shared(ctx, rep, tier)
+
+
+_run_structs = run
+
+
+def run(ctx, rep, tier):
+    _run_structs(ctx, rep, tier)
+    from . import structs
+    structs.check_copy_complete(ctx, rep, "C01.m")
+    structs.check_cull_policy(ctx, rep, "C01.n")
+    from .shared import delegate
+    delegate(ctx, rep, tier, "C08", ("C08.c",), "C01.o", "greedy case: the clause that runs is the one of maximal priority, each clause's priority looked up with its own key")
